@@ -71,6 +71,7 @@ na = {
  "C12": "final property order is produced by recursive in-place mutation of aliased schema nodes built by the external library; outside the heap subset of the self-written VC generator (local rejection checks are under C11, safety under C01)",
  "C20": "compares the catalogs of two different documents (two whole runs); not a property of any single call",
 }
+na["C05"] = "the per-state two-run lemmas ('\\r' vs '\\n', ' ' vs tab, comment entry/exit) need product VCs with relational call abstraction, which this verifier does not generate; the whole-document rewriting equivalences relate two complete runs on different inputs. No single-call contract states either (DESIGN.md section 0 and 4.C05)"
 pending = {}
 for i in range(1, 21):
     pid = "C%02d" % i
